@@ -187,6 +187,8 @@ type errSource struct {
 	pos, k   int
 	together bool
 	err      error
+	// delivered: the error has been returned to the caller at least once
+	delivered bool
 }
 
 func (s *errSource) Read(p []byte) (int, error) {
@@ -194,11 +196,13 @@ func (s *errSource) Read(p []byte) (int, error) {
 		return 0, nil
 	}
 	if s.pos >= s.k {
+		s.delivered = true
 		return 0, s.err
 	}
 	n := copy(p, s.data[s.pos:s.k])
 	s.pos += n
 	if s.together && s.pos == s.k {
+		s.delivered = true
 		return n, s.err
 	}
 	return n, nil
@@ -342,6 +346,7 @@ func C09(c *hx.Ctx) {
 		data         []byte
 		k            int
 		together     bool
+		single       bool // xz only: ReaderConfig.SingleStream
 	}
 	var rjobs []rjob
 	add := func(name, format string, data []byte) {
@@ -350,12 +355,25 @@ func C09(c *hx.Ctx) {
 			step = len(data) / c.Pick(400, 4000)
 		}
 		for k := 0; k < len(data); k += step {
-			rjobs = append(rjobs, rjob{name, format, data, k, false})
+			rjobs = append(rjobs, rjob{name, format, data, k, false, false})
 			if k > 0 {
-				rjobs = append(rjobs, rjob{name, format, data, k, true})
+				rjobs = append(rjobs, rjob{name, format, data, k, true, false})
 			}
 		}
-		rjobs = append(rjobs, rjob{name, format, data, len(data), true})
+		rjobs = append(rjobs, rjob{name, format, data, len(data), true, false})
+		// the source hands over every byte of the stream and then fails instead of reporting EOF:
+		// whether the reader notices depends on whether it asks for more (multi-stream xz readers
+		// and SingleStream's probe do); judged by whether the error was delivered to it
+		rjobs = append(rjobs, rjob{name, format, data, len(data), false, false})
+		if format == "xz" {
+			n := len(rjobs)
+			for i := 0; i < n; i++ {
+				if j := rjobs[i]; j.name == name && j.format == format && (j.k%3 == 0 || j.k >= len(data)-40) {
+					j.single = true
+					rjobs = append(rjobs, j)
+				}
+			}
+		}
 	}
 	for _, b := range baseStreams(c.Seed, false) {
 		add(b.Name, "xz", b.Data)
@@ -377,7 +395,7 @@ func C09(c *hx.Ctx) {
 		p := safely(func() {
 			switch j.format {
 			case "xz":
-				r, err = xz.ReaderConfig{DictCap: 4096}.NewReader(src)
+				r, err = xz.ReaderConfig{DictCap: 4096, SingleStream: j.single}.NewReader(src)
 			case "lzma2":
 				r, err = lzma.Reader2Config{DictCap: 4096}.NewReader2(src)
 			case "alone":
@@ -389,12 +407,25 @@ func C09(c *hx.Ctx) {
 		}
 		_ = out
 		sig := func(kind string) map[string]string {
-			return map[string]string{"side": "reader", "kind": kind, "format": j.format, "together": fmt.Sprint(j.together)}
+			m := map[string]string{"side": "reader", "kind": kind, "format": j.format, "together": fmt.Sprint(j.together)}
+			if j.single {
+				m["single"] = "true"
+			}
+			if j.k == len(j.data) {
+				m["at"] = "end"
+			}
+			return m
 		}
-		replay := map[string]any{"stream": j.name, "k": j.k, "together": j.together, "len": len(j.data)}
+		replay := map[string]any{"stream": j.name, "k": j.k, "together": j.together, "len": len(j.data), "singleStream": j.single}
+		atEnd := j.k == len(j.data)
 		switch {
 		case p != nil:
 			c.Violation(sig("panic"), fmt.Sprintf("%s: source fails at offset %d: panic %v", j.name, j.k, p), replay)
+		case atEnd && !j.together && !src.delivered:
+			// the reader never asked for more than the stream: nothing failed from its point of view
+			if err != nil {
+				c.Violation(sig("error-without-cause"), fmt.Sprintf("%s: complete stream, the source was never asked for more, yet the reader reports %v", j.name, err), replay)
+			}
 		case err == nil:
 			if !(j.together && j.k == len(j.data)) {
 				c.Violation(sig("source-error-masked"), fmt.Sprintf("%s: source fails at offset %d of %d (together=%v) but the reader reports a clean end", j.name, j.k, len(j.data), j.together), replay)
